@@ -26,7 +26,8 @@ RULE = ('case = one seeded Sampler (families incl. -inf plateaus/islands, all co
         'likelihoods, Kish sizes, log_z, n_eff, eta and (at a subset of hooks) posterior() weights from the stored '
         'arrays and compares at rel. 1e-10; the proposals handed out by the bound are counted at its sample() '
         'boundary and compared with the increase of shell_n_sample, and the monitor keeps its own running total per shell '
-        '(so a counter changed anywhere else is seen too). Non-trivial = >= 1 transfer, >= 1 shell with '
+        '(so a counter changed anywhere else is seen too); the proposals of every sample_shell call are captured and must '
+        'be conserved (handed out = rejected by a later bound + used). Non-trivial = >= 1 transfer, >= 1 shell with '
         'count < proposals and >= 1 comparison under a non-empty discarded view; distinct by case spec.')
 ASSUMPTIONS = ['states inside an exception are not batch boundaries and are not checked',
                'bounds[i].log_v is taken from the real bound (its calibration is C08)']
@@ -48,12 +49,15 @@ def _close(a, b):
 
 
 class EstimatorMonitor:
+    WANTS_PROPOSALS = True
+
     def __init__(self):
         self.viol = []
         self.obs = dict(estimator_comparisons=0, hook_calls=0, posterior_comparisons=0, proposal_count_checks=0,
                         transfers=0, shells_with_count_lt_proposals_max=0, discarded_view_comparisons=0,
                         empty_view_comparisons=0, neg_inf_samples_max=0, checks_on_resume=0, checks_after_toggle=0,
-                        max_bounds=0, empty_shells_removed=0, proposal_total_checks=0, proposal_tracking_lost=0)
+                        max_bounds=0, empty_shells_removed=0, proposal_total_checks=0, proposal_tracking_lost=0, proposal_conservation_checks=0,
+                        proposals_traced=0)
         self.driver = None
         self._n_sample_before = None
         self.batches = 0
@@ -203,6 +207,21 @@ class EstimatorMonitor:
     def on_after_sample_shell(self, s, index, result, handed):
         if len(result) > 2:
             self.obs['transfers'] += int(len(result[2]))
+        # conservation of proposals: every point the bound handed out either lies in a later bound (rejected) or is used
+        # (returned, or swapped for a transfer candidate) - a proposal that stayed in the shell but was dropped would be
+        # counted in the denominator of the shell volume and never in the numerator
+        prop = getattr(self.driver.hooks, 'last_proposals', None)
+        if prop is not None and len(prop) == handed:
+            stay = np.ones(len(prop), dtype=bool)
+            for b in s.bounds[index:][1:]:
+                stay &= ~b.contains(prop)
+            used = len(result[0]) + (len(result[2]) if len(result) > 2 else 0)
+            self.obs['proposal_conservation_checks'] += 1
+            self.obs['proposals_traced'] += len(prop)
+            if int(np.sum(stay)) != used:
+                self.bad('estimator.proposals-not-conserved', 'sample_shell(%d): the bound handed out %d proposals, %d of '
+                         'them lie in no later bound, but %d were used' % (index, len(prop), int(np.sum(stay)), used),
+                         s, 'after sample_shell')
 
     def on_after_add_samples(self, s, shell, result, handed):
         self.batches += 1
